@@ -218,7 +218,10 @@ type Scram struct {
 	Salt       []byte
 	Iter       int
 	SNonce     string // server part of the nonce (must be non-empty and printable)
-	T          *Trace
+	// FirstExt is appended to the server-first-message: RFC 5802 allows optional extension attributes after the
+	// iteration count (e.g. ",x=opaque"), which a client has to ignore
+	FirstExt string
+	T        *Trace
 
 	step        int
 	clientBare  string
@@ -343,7 +346,7 @@ func (s *Scram) Step(resp []byte) ([]byte, bool, bool) {
 			return s.fail("unknown user " + strconv.Quote(user))
 		}
 		s.nonce = cn + s.SNonce
-		s.serverFirst = "r=" + s.nonce + ",s=" + base64.StdEncoding.EncodeToString(s.Salt) + ",i=" + strconv.Itoa(s.Iter)
+		s.serverFirst = "r=" + s.nonce + ",s=" + base64.StdEncoding.EncodeToString(s.Salt) + ",i=" + strconv.Itoa(s.Iter) + s.FirstExt
 		return []byte(s.serverFirst), false, false
 	case 1:
 		s.step = 2
